@@ -126,6 +126,7 @@ type delivery struct {
 	closeInstead bool          // close the connection instead of responding
 	closeAfter   bool          // close the connection right after responding
 	silentAfter  bool          // respond, then never answer anything again
+	silentConn   bool          // respond, then never answer anything again ON THIS CONNECTION (new connections are served)
 	raw          []byte        // replaces the serialised response when non-nil
 	post         [][]byte      // raw bytes written in the SAME write as the response, behind it
 	chatter      []byte        // written every chatterEvery, chatterN times, while the response is withheld
@@ -147,10 +148,11 @@ type sconn struct {
 }
 
 type server struct {
-	env   *sysx.Env
-	flow  *Flow
-	creds bool
-	devs  []Dev
+	deadConn *sconn // connection on which nothing is answered any more
+	env      *sysx.Env
+	flow     *Flow
+	creds    bool
+	devs     []Dev
 
 	ln      net.Listener
 	udp     [2]net.PacketConn
@@ -358,6 +360,9 @@ func (s *server) normal(req *base.Request) (*resp, string) {
 	switch req.Method {
 	case base.Options:
 		r.add("Public", "DESCRIBE, ANNOUNCE, SETUP, PLAY, RECORD, PAUSE, GET_PARAMETER, TEARDOWN")
+		if s.flow.Options404 {
+			r.code = 404
+		}
 	case base.Describe:
 		u := reqURLNoCreds(req)
 		if !strings.HasSuffix(u, "/") {
@@ -443,12 +448,15 @@ func (s *server) handle(sc *sconn, req *base.Request) bool {
 			s.session = ""
 			s.medias = nil
 		}
-		if !s.silent {
+		if !s.silent && s.deadConn != sc {
 			s.write(sc, r.bytes())
 		}
 		return false
 	}
 
+	if s.deadConn == sc {
+		return false // this connection is not served any more (not a deviation position)
+	}
 	pos := s.pos
 	s.pos++
 	r, label := s.normal(req)
@@ -545,6 +553,9 @@ func (s *server) handle(sc *sconn, req *base.Request) bool {
 	}
 	if d.silentAfter {
 		s.silent = true
+	}
+	if d.silentConn {
+		s.deadConn = sc
 	}
 	return d.closeAfter
 }
